@@ -352,6 +352,38 @@ theorem flathomogen_group_total (maxnan : Int) (l : List (Int × Option α)) (ou
 
 end agg
 
+/-! ### any carrier (in particular IEEE doubles): the grouping structure does not depend on arithmetic laws -/
+section anycarrier
+set_option linter.unusedSectionVars false
+variable {β : Type} [Add β] [Div β] [LT β] [DecidableLT β] [OfNat β 0] [NatCast β]
+
+/-- over ANY carrier with the kernel's operations (no algebraic law assumed — this covers floating point):
+one output per distinct index value, in order, each computed from its own group alone by the kernel's
+left-to-right running reduction `accOf` and `flush`; every operator value, every `maxnan` -/
+theorem aggregate_per_group_any_carrier (op maxnan : Int) (l : List (Int × Option β)) (hne : l ≠ [])
+    (hs : (l.map Prod.fst).Pairwise (· ≤ ·)) :
+    aggregate op maxnan l = .ok ((keys l).map fun k => flush op maxnan (accOf op (groupOf l k))) := by
+  rw [aggregate_eq_groups op maxnan l hne hs, groups_eq l hs, List.map_map]
+  rfl
+
+theorem aggregate_rejects_decreasing_any_carrier (op maxnan : Int) (l : List (Int × Option β)) (hne : l ≠ [])
+    (hs : ¬ (l.map Prod.fst).Pairwise (· ≤ ·)) :
+    aggregate op maxnan l = .error .decreasingIndex :=
+  aggregate_err op maxnan l hne hs
+
+/-- flathomogen over any carrier: entry by entry, from its own group alone -/
+theorem flathomogen_per_group_any_carrier (maxnan : Int) (l : List (Int × Option β)) (hne : l ≠ [])
+    (hs : (l.map Prod.fst).Pairwise (· ≤ ·)) :
+    flathomogen maxnan l = .ok ((keys l).flatMap fun k => hcells maxnan (groupOf l k)) := by
+  rw [flathomogen_eq_groups maxnan l hne hs, groups_eq l hs, List.flatMap_map]
+
+theorem flathomogen_rejects_decreasing_any_carrier (maxnan : Int) (l : List (Int × Option β)) (hne : l ≠ [])
+    (hs : ¬ (l.map Prod.fst).Pairwise (· ≤ ·)) :
+    flathomogen maxnan l = .error .decreasingIndex :=
+  flathomogen_err maxnan l hne hs
+
+end anycarrier
+
 /-! ### calendar -/
 
 /-- every month of the series is a valid month with 28..31 days -/
